@@ -241,6 +241,23 @@ def check_sequences(res: Result, seqs, roundtrip_every):
         if o.get("unpacked_applied") != w:
             res.violation({"clause": "python_blob_into_rust"}, {"blob": b}, {"got": o.get("unpacked_applied"), "want": w,
                                                                             "err": o.get("unpack_error")})
+    # register snapshots through the Rust runtime's own files, two generations (see the harness): the third runtime must
+    # read every scratch and architectural register as the second one did when it saved
+    import os
+    import tempfile
+    gdir = tempfile.mkdtemp(prefix="c08gen-", dir=os.path.join(os.path.dirname(os.path.dirname(os.path.dirname(
+        os.path.abspath(__file__)))), ".work"))
+    try:
+        for o in rust.run("regs", [{"id": 1000 + i, "seq": [], "rt_snapshot_dir": gdir} for i in range(6)]):
+            g = o.get("generations") or {}
+            res.monitor("rust_runtime_snapshot_generations")
+            if g.get("error") or g.get("b") != g.get("c") or g.get("b_regs") != g.get("c_regs"):
+                res.violation({"clause": "second_generation_snapshot_differs", "model": "rs",
+                               "what": "temps" if g.get("b") != g.get("c") else "registers"}, {"id": o.get("id")},
+                              {k: g.get(k) for k in ("error", "b", "c")})
+    finally:
+        import shutil
+        shutil.rmtree(gdir, ignore_errors=True)
     res.monitors["registers_set_contract"] = _contract["evals"]
 
 
